@@ -331,7 +331,71 @@ func (g *recGraph) kindGraphRule(r *Result, scc []*recNode) bool {
 		// outer type switch on a parameter
 		var walk func(list []ast.Stmt, cur []string, switched map[string][]string)
 		walk = func(list []ast.Stmt, cur []string, narrowed map[string][]string) {
+			// okAssert: e is the ok identifier of `_, ok := X.(*Kind)`; returns X rendered and the kind
+			okAssert := func(e ast.Expr) (string, string) {
+				id := identOf(e)
+				if id == nil {
+					return "", ""
+				}
+				for _, d := range defsIn(info, n.fi.Decl, objOf(info, id)) {
+					ta, ok := ast.Unparen(d).(*ast.TypeAssertExpr)
+					if !ok || ta.Type == nil {
+						continue
+					}
+					if p, ok := info.TypeOf(ta.Type).(*types.Pointer); ok {
+						if nn, ok := p.Elem().(*types.Named); ok && len(kindsOfStatic(w, info.TypeOf(ta.X))) > 0 {
+							return es(ta.X), nn.Obj().Name()
+						}
+					}
+				}
+				return "", ""
+			}
 			for _, st := range list {
+				// `if isA || isB { <terminates> }` with isA, isB the oks of assertions of one expression to node
+				// kinds: afterwards the expression is none of those kinds
+				if is, ok := st.(*ast.IfStmt); ok && is.Else == nil && is.Init == nil && terminates(is.Body) {
+					subject, excluded := "", map[string]bool{}
+					good := true
+					for _, c := range splitCond(is.Cond, false) {
+						x, k := okAssert(c.expr)
+						if x == "" || c.truth || (subject != "" && x != subject) {
+							good = false
+							break
+						}
+						subject = x
+						excluded[k] = true
+					}
+					if good && subject != "" {
+						base := narrowed[subject]
+						if base == nil {
+							ast.Inspect(is.Cond, func(y ast.Node) bool {
+								if id, ok := y.(*ast.Ident); ok {
+									for _, d := range defsIn(info, n.fi.Decl, objOf(info, id)) {
+										if ta, ok := ast.Unparen(d).(*ast.TypeAssertExpr); ok && es(ta.X) == subject {
+											base = kindsOfStatic(w, info.TypeOf(ta.X))
+										}
+									}
+								}
+								return true
+							})
+						}
+						var rest []string
+						for _, k := range base {
+							if !excluded[k] {
+								rest = append(rest, k)
+							}
+						}
+						nn := map[string][]string{}
+						for k, v := range narrowed {
+							nn[k] = v
+						}
+						nn[subject] = rest
+						// the body is walked with the old facts, what follows with the new ones
+						walk(is.Body.List, cur, narrowed)
+						narrowed = nn
+						continue
+					}
+				}
 				ast.Inspect(st, func(x ast.Node) bool {
 					switch x := x.(type) {
 					case *ast.TypeSwitchStmt:
@@ -973,6 +1037,37 @@ func (g *recGraph) typeArgEdge(n *recNode, call *ast.CallExpr) string {
 		}
 		return true
 	})
+	// variables bound to an element, directly (`arg := args.At(i)`) or through a comma-ok assertion of one
+	// (`named, ok := arg.(*types.Named)`), are elements too
+	for changed := true; changed; {
+		changed = false
+		ast.Inspect(n.body, func(x ast.Node) bool {
+			as, ok := x.(*ast.AssignStmt)
+			if !ok || len(as.Rhs) != 1 || len(as.Lhs) < 1 {
+				return true
+			}
+			lid := identOf(as.Lhs[0])
+			if lid == nil || lid.Name == "_" || elemVars[objOf(info, lid)] {
+				return true
+			}
+			rhs := ast.Unparen(as.Rhs[0])
+			if ta, isTA := rhs.(*ast.TypeAssertExpr); isTA {
+				rhs = ast.Unparen(ta.X)
+			}
+			from := isElem(rhs)
+			if id := identOf(rhs); id != nil && elemVars[objOf(info, id)] {
+				from = true
+			}
+			if from {
+				// bound once only
+				if len(defsIn(info, n.fi.Decl, objOf(info, lid))) == 1 {
+					elemVars[objOf(info, lid)] = true
+					changed = true
+				}
+			}
+			return true
+		})
+	}
 	desc, other := false, false
 	for _, a := range call.Args {
 		t := info.TypeOf(a)
